@@ -99,6 +99,15 @@ def draw_case(rng: numpy.random.Generator, small: bool = True, force: Optional[d
             noisy = True
             nrow = ds.static_table.shape[0]
             ds.static_table[:, -n_extra:] += rng.uniform(0.02, 0.12, size=(nrow, n_extra)) * rng.choice([-1.0, 1.0], size=(nrow, n_extra))
+    # ---- a symmetry-allowed component that is SMALL but not vanishing at every volume (0.02–0.09 GPa: below the default residual tolerance
+    #      0.1, far above the drop tolerance 1e-8): it is data, it stays in the key set and in the tensor
+    if force.get("small_component"):
+        n_own = len(ds.static_keys) - n_extra
+        cand = [c for c in range(n_own) if ds.static_keys[c][0] != ds.static_keys[c][1] and int(ds.static_keys[c][1]) >= 4]
+        if cand:
+            c_small = cand[int(rng.integers(0, len(cand)))]
+            nrow = ds.static_table.shape[0]
+            ds.static_table[:, c_small] = numpy.linspace(0.085, 0.021, nrow) * (1.0 if rng.random() < 0.5 else -1.0)
     # ---- order of the rows of the static table: the reader takes the rows as listed and nothing requires them to be sorted (only
     #      the PHONON file must list decreasing volumes); the lattice block, when present, is listed in the same order as the rows
     static_rows = force.get("static_rows", "listed")
@@ -138,11 +147,11 @@ def draw_case(rng: numpy.random.Generator, small: bool = True, force: Optional[d
     dp = float(force.get("DELTA_P", (p_top - p_min) / (ntv - 1)))
     qs = ds.settings["qha"]["settings"]
     qs.update({"T_MIN": 0, "NT": nt, "DT": dt, "DT_SAMPLE": dt, "NTV": ntv, "P_MIN": p_min, "DELTA_P": dp,
-               "DELTA_P_SAMPLE": dp, "volume_ratio": ratio, "order": 3, "static_only": False})
+               "DELTA_P_SAMPLE": dp, "volume_ratio": ratio, "order": int(force.get("qha_order", 3)), "static_only": False})
     ds.settings["elast"]["settings"]["mode_gamma"] = {"interpolator": "lsq_poly",
                                                       "order": int(min(3, max(1, nv - 2)))}
     desc = {"nv": nv, "nq": nq, "na": na, "system": system, "lattice": lattice, "nkeys": len(ds.static_keys), "redundant_keys": n_extra, "redundant_noisy": noisy,
-            "static_mesh": static_mesh, "static_rows": static_rows, "law": law, "acoustic": acoustic,
+            "static_mesh": static_mesh, "static_rows": static_rows, "qha_order": int(force.get("qha_order", 3)), "small_component": bool(force.get("small_component")), "law": law, "acoustic": acoustic,
             "NT": nt, "DT": dt, "NTV": ntv, "volume_ratio": ratio, "P_MIN": p_min, "DELTA_P": dp,
             "p_last_est_gpa": p_last_gpa}
     return ds, desc
